@@ -186,7 +186,8 @@ func CoqFaults(fs []string) string {
 			out = append(out, "FBackMaps")
 		case f == "tcpcrt":
 			out = append(out, "FTcpCrt")
-		case f == "main":
+		case f == "main" || f == "resp":
+			// resp: writeConfig fails at a custom response file, before the main file
 			out = append(out, "FMain")
 		case strings.HasPrefix(f, "shard:"):
 			var j int
